@@ -24,7 +24,7 @@ structure Holds (cfg : Cfg) : Prop where
   /-- at most one summoner is between `ready = true` and the deferred `ready = false` -/
   oneInside : ∀ as s a b, run cfg init as = some s → isCS (s.thr a).pc = true → isCS (s.thr b).pc = true → a = b
 
-theorem inv_step (s : St) (a : Act) (s' : St) (h : Inv s) (hs : step rc s a = some s') : Inv s' := by
+theorem inv_step (s : St) (a : Act) (s' : St) (h : Inv s) (hp : PubInv s) (hs : step rc s a = some s') : Inv s' := by
   cases a with
   | lookup t =>
     by_cases hpc : (s.thr t).pc = .idle
@@ -101,14 +101,163 @@ theorem inv_step (s : St) (a : Act) (s' : St) (h : Inv s) (hs : step rc s a = so
     split at hs
     · rename_i hpc; exact absurd hpc (h.noLeft2 t)
     · simp at hs
-  | closeCallback =>
+  | closeInst i =>
     simp only [step] at hs
-    cases hm : s.swampMap with
-    | none => simp [hm] at hs
-    | some i => simp only [hm] at hs; simp at hs; subst hs; exact inv_close s h i hm
+    split at hs
+    · rename_i hc
+      simp at hs; subst hs
+      have hm : s.swampMap = some i := hp.liveMapped i hc.2 hc.1
+      have : unmap rc s.swampMap i = none := by simp [unmap, rc, hm]
+      rw [this]
+      exact inv_close s h i hm
+    · simp at hs
+  | staleCallback i =>
+    simp only [step] at hs
+    split at hs
+    · rename_i hc
+      simp at hs; subst hs
+      have hne : s.swampMap ≠ some i := by
+        intro e; have := (h.mapped i e).1; rw [this] at hc; simp at hc
+      have : unmap rc s.swampMap i = s.swampMap := by simp [unmap, rc, hne]
+      rw [this]
+      exact h
+    · simp at hs
 
-theorem reach_inv (as : List Act) (s : St) (h : run rc init as = some s) : Inv s :=
-  LTS.inv_run (step rc) Inv (fun s a s' hi hs => inv_step s a s' hi hs) init as s inv_init h
+theorem created_setThr (s : St) (thr0 : Nat → Thread) (t : Nat) (x : Thread)
+    (h0 : ∀ y j, (thr0 y).pc = .created j → (s.thr y).pc = .created j) (hx : ∀ j, x.pc ≠ .created j) :
+    ∀ y j, (setThr { s with thr := thr0 } t x y).pc = .created j → (s.thr y).pc = .created j := by
+  intro y j e
+  by_cases hy : y = t
+  · subst hy; simp [setThr] at e; exact absurd e (hx j)
+  · simp [setThr, hy] at e; exact h0 y j e
+
+theorem pub_step (s : St) (a : Act) (s' : St) (h : Inv s) (hp : PubInv s) (hs : step rc s a = some s') : PubInv s' := by
+  obtain ⟨hLM, hB, hCB⟩ := hp
+  have plain : ∀ (t : Nat) (x : Thread), (∀ j, x.pc ≠ .created j) →
+      ∀ y j, (setThr s t x y).pc = .created j → j < s.nextInst := by
+    intro t x hx y j e
+    exact hCB y j (created_setThr s s.thr t x (fun _ _ e => e) hx y j e)
+  have woken : ∀ (σ t : Nat) (x : Thread), (∀ j, x.pc ≠ .created j) →
+      ∀ y j, (setThr { s with thr := wake s.thr σ } t x y).pc = .created j → j < s.nextInst := by
+    intro σ t x hx y j e
+    exact hCB y j (created_setThr s (wake s.thr σ) t x (fun y j e => (wake_created _ _ _ j).mp e) hx y j e)
+  cases a with
+  | lookup t =>
+    simp only [step] at hs
+    split at hs
+    · cases hm : s.slotMap with
+      | some σ => simp only [hm] at hs; simp at hs; subst hs; exact ⟨hLM, hB, plain t _ (by simp)⟩
+      | none => simp only [hm] at hs; simp at hs; subst hs; exact ⟨hLM, hB, plain t _ (by simp)⟩
+    · simp at hs
+  | enter t =>
+    simp only [step] at hs
+    split at hs
+    · cases ho : (s.slots (s.thr t).slot).owner with
+      | none => simp only [ho] at hs; simp at hs; subst hs; exact ⟨hLM, hB, plain t _ (by simp)⟩
+      | some o => simp only [ho] at hs; simp at hs; subst hs; exact ⟨hLM, hB, plain t _ (by simp)⟩
+    · simp at hs
+  | giveUp t =>
+    simp only [step] at hs
+    split at hs
+    · simp [rc] at hs; subst hs; exact ⟨hLM, hB, woken _ t _ (by simp)⟩
+    · simp at hs
+  | bodyCtxDone t =>
+    simp only [step] at hs
+    split at hs
+    · simp at hs; subst hs; exact ⟨hLM, hB, plain t _ (by simp)⟩
+    · simp at hs
+  | bodyGet t =>
+    simp only [step] at hs
+    split at hs
+    · split at hs <;> simp at hs <;> subst hs <;> exact ⟨hLM, hB, plain t _ (by simp)⟩
+    · simp at hs
+  | bodyCreate t =>
+    simp only [step] at hs
+    split at hs
+    · rename_i hpc
+      simp at hs; subst hs
+      refine ⟨?_, ?_, ?_⟩
+      · intro i hi hl
+        dsimp only at hi hl ⊢
+        -- the new instance is not published yet, and nothing else is alive
+        have hnone := h.creating t hpc
+        have : s.live = [] := by
+          apply h.empty hnone
+          intro y j e
+          have hc1 : isCS (s.thr y).pc = true := by rw [e]; rfl
+          have hc2 : isCS (s.thr t).pc = true := by rw [hpc]; rfl
+          have := cs_unique s h y t hc1 hc2
+          subst this; rw [hpc] at e; simp at e
+        rw [this] at hl; simp at hl
+        have := hB i hi; omega
+      · intro i hi; have := hB i hi; show i < s.nextInst + 1; omega
+      · intro y j e
+        dsimp only at e ⊢
+        by_cases hy : y = t
+        · subst hy; simp [setThr] at e; omega
+        · simp [setThr, hy] at e; have := hCB y j e; omega
+    · simp at hs
+  | bodyStore t =>
+    simp only [step] at hs
+    cases hpc : (s.thr t).pc <;> simp only [hpc] at hs <;> try (simp at hs)
+    subst hs
+    rename_i i
+    have hl := (h.created t i hpc).2
+    refine ⟨?_, ?_, plain t _ (by simp)⟩
+    · intro k hk hkl
+      dsimp only at hk hkl ⊢
+      rw [hl] at hkl; simp at hkl; rw [hkl]
+    · intro k hk
+      dsimp only at hk ⊢
+      rcases List.mem_append.mp hk with hk | hk
+      · exact hB k hk
+      · simp at hk; subst hk; exact hCB t k hpc
+  | leaveUnready t =>
+    simp only [step] at hs
+    split at hs
+    · simp at hs; subst hs; exact ⟨hLM, hB, woken _ t _ (by simp)⟩
+    · simp at hs
+  | leaveDec t =>
+    simp only [step] at hs
+    split at hs
+    · simp [rc] at hs; subst hs; exact ⟨hLM, hB, plain t _ (by simp)⟩
+    · simp at hs
+  | leaveDel t =>
+    simp only [step] at hs
+    split at hs
+    · simp at hs; subst hs; exact ⟨hLM, hB, plain t _ (by simp)⟩
+    · simp at hs
+  | closeInst i =>
+    simp only [step] at hs
+    split at hs
+    · rename_i hc
+      simp at hs; subst hs
+      have hm : s.swampMap = some i := hLM i hc.2 hc.1
+      have hlive : s.live = [i] := (h.mapped i hm).1
+      refine ⟨?_, hB, hCB⟩
+      intro k _ hkl
+      dsimp only at hkl
+      rw [hlive] at hkl; simp at hkl
+    · simp at hs
+  | staleCallback i =>
+    simp only [step] at hs
+    split at hs
+    · rename_i hc
+      simp at hs; subst hs
+      have hne : s.swampMap ≠ some i := by
+        intro e; have := (h.mapped i e).1; rw [this] at hc; simp at hc
+      have hun : unmap rc s.swampMap i = s.swampMap := by simp [unmap, rc, hne]
+      refine ⟨?_, hB, hCB⟩
+      intro k hk hkl
+      dsimp only at hkl ⊢
+      rw [hun]; exact hLM k hk hkl
+    · simp at hs
+
+theorem reach_both (as : List Act) (s : St) (h : run rc init as = some s) : Inv s ∧ PubInv s :=
+  LTS.inv_run (step rc) (fun s => Inv s ∧ PubInv s)
+    (fun s a s' hi hs => ⟨inv_step s a s' hi.1 hi.2 hs, pub_step s a s' hi.1 hi.2 hs⟩) init as s ⟨inv_init, pub_init⟩ h
+
+theorem reach_inv (as : List Act) (s : St) (h : run rc init as = some s) : Inv s := (reach_both as s h).1
 
 /-- `summon_mutex`: with reference-counted slots no schedule has two live instances. -/
 theorem summon_mutex : Holds rc := by
@@ -136,8 +285,6 @@ example : (run rc init [.lookup 1, .enter 1, .lookup 2, .enter 2, .bodyCtxDone 1
 
 /-! ### The bookkeeping as it is: only waiters count -/
 
-def current : Cfg := { refCounted := false }
-
 /-- S1 owns the slot (uncounted), S2 waits (count 1), S1 leaves on a cancelled context and its
     decrement drops the slot from the map; S2 wakes on the orphan, S3 gets a fresh slot; both are
     inside, both find no swamp, both create. -/
@@ -145,18 +292,51 @@ def witness : List Act :=
   [.lookup 1, .enter 1, .lookup 2, .enter 2, .bodyCtxDone 1, .leaveUnready 1, .leaveDec 1, .leaveDel 1,
    .enter 2, .lookup 3, .enter 3, .bodyGet 2, .bodyGet 3, .bodyCreate 2, .bodyCreate 3]
 
-theorem witness_two_live :
-    (run current init witness).map (fun s => (s.live, (s.thr 2).slot, (s.thr 3).slot, s.slotMap)) =
-    some ([0, 1], 0, 1, some 1) := by decide
+theorem witness_two_live (c : Bool) :
+    (run { refCounted := false, callbackCompares := c } init witness).map
+      (fun s => (s.live, (s.thr 2).slot, (s.thr 3).slot, s.slotMap)) = some ([0, 1], 0, 1, some 1) := by
+  cases c <;> decide
 
-theorem refutes_current : ¬ Holds current := by
+theorem refutes_waiterCount (c : Bool) : ¬ Holds { refCounted := false, callbackCompares := c } := by
   intro h
-  cases hs : run current init witness with
-  | none => have := witness_two_live; simp [hs] at this
+  cases hs : run { refCounted := false, callbackCompares := c } init witness with
+  | none => have := witness_two_live c; simp [hs] at this
   | some s =>
-    have hw := witness_two_live
+    have hw := witness_two_live c
     simp [hs] at hw
     have := h.oneLive witness s hs
+    rw [hw.1] at this; simp at this
+
+/-! ### The close callback as it is: `swamps.Delete(name)` -/
+
+/-- Instance 0 is summoned and closes; instance 1 is summoned; a second callback of the dead
+    instance 0 (`Destroy()` on the stale handle) deletes the map entry — by name — under the live
+    instance 1; the next summoner finds nothing and creates instance 2. -/
+def witnessStale : List Act :=
+  [.lookup 1, .enter 1, .bodyGet 1, .bodyCreate 1, .bodyStore 1, .leaveUnready 1, .leaveDec 1, .leaveDel 1,
+   .closeInst 0,
+   .lookup 2, .enter 2, .bodyGet 2, .bodyCreate 2, .bodyStore 2, .leaveUnready 2, .leaveDec 2, .leaveDel 2,
+   .staleCallback 0,
+   .lookup 3, .enter 3, .bodyGet 3, .bodyCreate 3]
+
+/-- (`leaveDel` is not a step of the reference-counted variant: the schedule without it) -/
+def witnessStaleRc : List Act := witnessStale.filter (fun a => match a with | .leaveDel _ => false | _ => true)
+
+theorem witness_stale_two_live :
+    (run { refCounted := true, callbackCompares := false } init witnessStaleRc).map (fun s => (s.live, s.swampMap)) =
+      some ([1, 2], none) ∧
+    (run { refCounted := false, callbackCompares := false } init witnessStale).map (fun s => (s.live, s.swampMap)) =
+      some ([1, 2], none) := by
+  constructor <;> decide
+
+theorem refutes_staleCallback : ¬ Holds { refCounted := true, callbackCompares := false } := by
+  intro h
+  cases hs : run { refCounted := true, callbackCompares := false } init witnessStaleRc with
+  | none => have := witness_stale_two_live.1; simp [hs] at this
+  | some s =>
+    have hw := witness_stale_two_live.1
+    simp [hs] at hw
+    have := h.oneLive witnessStaleRc s hs
     rw [hw.1] at this; simp at this
 
 /-! ### Decision over the extracted facts -/
@@ -168,37 +348,56 @@ structure Facts where
   enterUnderCondLock : Tri
   /-- who increments `waiter.count`: only waiters inside the loop (`no`) / every entrant with the lookup (`yes`) -/
   everyEntrantCounts : Tri
-  /-- deferred block: `ready = false; Broadcast()` under `L`, then `AddInt32(-1)`, then `Delete` when the count reads 0 -/
+  /-- deferred block: `ready = false; Broadcast()` under `L`, then the decrement and the delete at zero -/
   leaveShape : Tri
   /-- the decrement and the conditional delete are one atomic step with respect to lookups -/
   decDeleteAtomic : Tri
   /-- `createNewSwamp` and `swamps.Store` only inside the critical section, after `getSwamp` returned nil -/
   createInsideOnly : Tri
-  /-- the close callback is `swamps.Delete(name)` -/
-  callbackDeletes : Tri
+  /-- the close callback removes the `swamps` entry only if it is still this instance
+      (`CompareAndDelete`): yes; `swamps.Delete(name)`: no -/
+  callbackCompares : Tri
   deriving Repr
 
 def structural (f : Facts) : Bool :=
-  f.lookupLoadOrStore.isYes && f.enterUnderCondLock.isYes && f.createInsideOnly.isYes && f.callbackDeletes.isYes
+  f.lookupLoadOrStore.isYes && f.enterUnderCondLock.isYes && f.createInsideOnly.isYes && f.leaveShape.isYes
+
+def triBool : Tri → Option Bool
+  | .yes => some true | .no => some false | .unknown => none
+
+/-- reference counted = every entrant counts ∧ decrement+delete atomic; anything mixed is not covered -/
+def rcFact (f : Facts) : Option Bool :=
+  match f.everyEntrantCounts, f.decDeleteAtomic with
+  | .yes, .yes => some true
+  | .no, .no => some false
+  | _, _ => none
 
 def classify (f : Facts) : Verdict :=
   if !structural f then .undetermined "SummonSwamp no longer has the modelled shape" else
-  match f.everyEntrantCounts, f.decDeleteAtomic, f.leaveShape with
-  | .yes, .yes, _ => .holds
-  | .no, .no, .yes => .violated ["C18-slot-dropped-while-in-use"]
-  | _, _, _ => .undetermined "summon slot bookkeeping (who counts / how the slot is deleted)"
+  match rcFact f, triBool f.callbackCompares with
+  | some true, some true => .holds
+  | some false, some true => .violated ["C18-slot-dropped-while-in-use"]
+  | some false, some false => .violated ["C18-slot-dropped-while-in-use", "C18-stale-callback-unmaps-live-instance"]
+  | some true, some false => .violated ["C18-stale-callback-unmaps-live-instance"]
+  | _, _ => .undetermined "summon slot bookkeeping / close callback shape"
 
-def cfgOf (f : Facts) : Cfg := { refCounted := f.everyEntrantCounts.isYes && f.decDeleteAtomic.isYes }
+def cfgOf (f : Facts) : Cfg :=
+  { refCounted := (rcFact f).getD false, callbackCompares := (triBool f.callbackCompares).getD false }
 
 theorem classify_sound (f : Facts) : (classify f).Sound (Holds (cfgOf f)) := by
   unfold classify
   split
   · simp [Verdict.Sound]
-  · cases he : f.everyEntrantCounts <;> cases hd : f.decDeleteAtomic <;> cases hl : f.leaveShape <;>
-      simp only [Verdict.Sound, cfgOf, he, hd, Tri.isYes, Bool.and_self, Bool.and_false, Bool.false_and] <;>
-      first
-        | trivial
-        | exact summon_mutex
-        | exact ⟨refutes_current, trivial⟩
+  · cases hr : rcFact f with
+    | none => simp [Verdict.Sound]
+    | some r =>
+      cases hc : triBool f.callbackCompares with
+      | none => simp [Verdict.Sound]
+      | some c =>
+        cases r <;> cases c <;> simp only [Verdict.Sound, cfgOf, hr, hc, Option.getD]
+        · exact ⟨refutes_waiterCount false, trivial⟩
+        · exact ⟨refutes_waiterCount true, trivial⟩
+        · exact ⟨refutes_staleCallback, trivial⟩
+        · exact summon_mutex
 
 end Hv.C18
